@@ -10,9 +10,9 @@ import (
 // EngineFor returns the function that executes a plan for a property.
 func EngineFor(prop string) func(*Plan) *RunResult {
 	switch prop {
-	case "C05", "C18":
+	case "C05", "C18", "C15", "C19":
 		return func(plan *Plan) *RunResult {
-			if plan.Con != nil || (len(plan.Ops) == 0 && (prop == "C05" || plan.Seed%2 == 0)) {
+			if plan.Con != nil || (len(plan.Ops) == 0 && (prop == "C05" || (prop == "C18" && plan.Seed%2 == 0) || ((prop == "C15" || prop == "C19") && plan.Seed%4 == 0))) {
 				r := RunConProp(plan, prop)
 				r.Hash = Mix(r.Sig, uint64(r.Stats.Steps), uint64(r.Stats.Compares))
 				if r.Viol != nil {
